@@ -46,6 +46,9 @@ def lake(*targets, timeout=3600):
     return p.returncode, p.stdout.decode(errors='replace')
 
 
+_RESTORE = []
+
+
 def regen_table(group):
     """Regenerate lean/BtcVerif/Generated/<group>.lean from the working tree; rewrite only if changed."""
     ensure_repo_on_path()
@@ -61,6 +64,20 @@ def regen_table(group):
     if old != src:
         with open(path, 'w') as f:
             f.write(src)
+    if REPO != '/repo':
+        # a run against a scratch tree (REPO_ROOT) must not leave its tables behind in the shared Lean tree:
+        # when the run is over put back the committed table (falling back to what was there before)
+        back = old
+        try:
+            rel = os.path.relpath(path, VERIF)
+            p = subprocess.run(['git', '-C', VERIF, 'show', 'HEAD:' + rel], stdout=subprocess.PIPE,
+                               stderr=subprocess.DEVNULL, timeout=30)
+            if p.returncode == 0 and p.stdout:
+                back = p.stdout.decode()
+        except Exception:  # noqa: BLE001
+            pass
+        if back is not None and back != src:
+            _RESTORE.append((path, back))
 
 
 def theorems_in(relpath):
@@ -145,6 +162,10 @@ def prepare(prop, tier='quick'):
                 out['audit']['leanchecker'] = 'ok: ' + ' '.join(prop.lean_targets)
         return out
     finally:
+        for path, old in _RESTORE:
+            with open(path, 'w') as f:
+                f.write(old)
+        del _RESTORE[:]
         fcntl.flock(lockf, fcntl.LOCK_UN)
         lockf.close()
 
@@ -182,7 +203,14 @@ def _prepare(prop, out):
             continue
         rc, log = lake('BtcVerif.Tables.' + g)
         if rc != 0:
-            errs = '\n'.join(l for l in log.splitlines() if 'error' in l.lower())[:1500]
+            lines = log.splitlines()
+            keep = []
+            for k, l in enumerate(lines):
+                if 'error' in l.lower():
+                    keep += lines[k:k + 12]
+            errs = ('obligations of BtcVerif/Tables/%s.lean (%s) against the table regenerated from the working '
+                    'tree:\n' % (g, ', '.join(theorems_in('BtcVerif/Tables/%s.lean' % g)))
+                    + '\n'.join(keep))[:3000]
             out['broken_ties'].append((name, errs or log[-1500:]))
             tables[g] = 'obligation-failed'
         else:
